@@ -43,6 +43,9 @@ func runOne(line string) {
 		}
 	case "V":
 		o = []string{itoa(nValidateFast(&verifx.AVX2, unhex(f[1])))}
+	case "VA":
+		b := unhex(f[1])
+		o = []string{btxt(refFirstBad(b) < 0), itoa(nValidateFast(&verifx.AVX2, b))}
 	case "VE":
 		r, np, vt := nValidate(&verifx.AVX2, unhex(f[3]), atoi(f[2]))
 		o = []string{itoa(r), itoa(np), joinInts(vt)}
